@@ -49,19 +49,20 @@ var c10Projects = map[string]*project{
 	// one process-wide table keyed by value would hand from one to the other
 	"S10": {Root: "{\n\t\"a\": 5, // {min: 1, max: 20.50}\n\t\"b\": \"A\", // {enum: [\"A\", \"b\"]}\n\t\"c\": 1.5 // {precision: 2, min: 0.50}\n}"},
 	"S11": {Root: "{\n\t\"a\": 5, // {min: 1.0, max: 20.5}\n\t\"b\": \"A\", // {enum: [\"\\u0041\", \"b\"]}\n\t\"c\": 1.5 // {precision: 2, min: 0.5}\n}"},
+	// a schema whose dereferenced view is a list of seven informers (longer than any list
+	// an allocator would size for the common case)
+	"S13": {Root: `1 // {or: ["integer", "string", "boolean", "float", "@obj", "@arr", "null"]}`, Types: map[string]string{"@obj": "{\n\t\"key\": \"value\"\n}", "@arr": "[\n\t1,\n\t2\n]"}},
 	// fails in the checker
 	"S5": {Root: "{\n\t\"a\": 1, // {min: 0}\n\t\"b\": @missing,\n\t\"c\": 2 // {min: 5}\n}"},
 }
 
-// S12: a project whose example (about 9 KiB) and OpenAPI text (about 20 KiB) outgrow the
+// S12: a project whose example (about 18 KiB) and OpenAPI text (about 18 KiB) outgrow the
 // pooled buffers many times over: whatever a pool does with an oversized buffer shows in
 // the next, small, result.
 func init() {
 	var b strings.Builder
-	b.WriteString("{\n\t\"text\": \"" + strings.Repeat("x", 6000) + "\",\n\t\"list\": [\n\t\t1\n\t]")
-	for i := 0; i < 300; i++ {
-		fmt.Fprintf(&b, ",\n\t\"p%03d\": %d", i, i)
-	}
+	// (few properties: every pooled buffer taken is a choice point of the exploration)
+	b.WriteString("{\n\t\"text\": \"" + strings.Repeat("x", 6000) + "\",\n\t\"list\": [\n\t\t1\n\t],\n\t\"more\": \"" + strings.Repeat("y", 12000) + "\"")
 	b.WriteString("\n}")
 	c10Projects["S12"] = &project{Root: b.String()}
 }
@@ -79,8 +80,8 @@ type c10Sym struct {
 
 func (s c10Sym) String() string { return s.Obj + "." + s.Op }
 
-var c10Disturbers = []c10Sym{{"L", "{\n\t\"enabled\": tr"}, {"L", `"ab`}, {"LE", `[1, "a`}, {"S1", "AddType-refused"}, {"S3", "Check"}, {"S4", "Check"}, {"S5", "Check"}, {"S1", "Example"}, {"S6", "OpenAPI"}, 
-	{"D2", "Check"}, {"R1", "Example"}, {"G", "1e2"}, {"S8", "Example+write"}, {"S10", "GetAST"}, {"S12", "Example"}, {"S12", "OpenAPI"}}
+var c10Disturbers = []c10Sym{{"L", "{\n\t\"enabled\": tr"}, {"LE", `[1, "a`}, {"S1", "AddType-refused"}, {"S4", "Check"}, {"S1", "Example"}, {"S6", "OpenAPI"},
+	{"D2", "Check"}, {"R1", "Example"}, {"S8", "Example+write"}, {"S10", "GetAST"}, {"S12", "Example"}, {"S12", "OpenAPI"}, {"S13", "Dereference"}}
 
 func c10Alphabet() []c10Sym {
 	var out []c10Sym
@@ -115,7 +116,7 @@ func c10Alphabet() []c10Sym {
 	for _, op := range []string{"Check", "Example", "GetAST", "Used"} {
 		out = append(out, c10Sym{"S9", op})
 	}
-	out = append(out, c10Sym{"S12", "Example"}, c10Sym{"S12", "OpenAPI"})
+	out = append(out, c10Sym{"S12", "Example"}, c10Sym{"S12", "OpenAPI"}, c10Sym{"S13", "Dereference"}, c10Sym{"S13", "OpenAPI"})
 	for _, o := range []string{"S10", "S11"} {
 		for _, op := range []string{"GetAST", "OpenAPI", "Check"} {
 			out = append(out, c10Sym{o, op})
@@ -180,7 +181,7 @@ func c10Exec(objs *c10Objects, sym c10Sym) (res c10Result) {
 	}
 	rec, site := guard(func() {
 		switch sym.Obj {
-		case "S1", "S2", "S3", "S4", "S5", "S6", "S7", "S8", "S9", "S10", "S11", "S12":
+		case "S1", "S2", "S3", "S4", "S5", "S6", "S7", "S8", "S9", "S10", "S11", "S12", "S13":
 			s := objs.s[sym.Obj]
 			var buildErr error
 			if s == nil {
@@ -601,7 +602,7 @@ func init() {
 		ID:        "C10",
 		Inst:      true,
 		Technique: "exhaustive operation histories over several schema/rule/regex/document objects, each executed under every sync.Pool answer within a deviation bound with a scribbling pool model; every retained result is re-read after every step and compared with its snapshot and with the result of the same call made first in a brand-new process",
-		Rule:      "alphabet: 50 symbols = {Check, Example, GetAST, OpenAPI, Dereference, Len, UsedUserTypes} x 6 schema projects (deep valid with types, one with every rule kind the converter handles, shallow valid, fails in scanner, fails in rule loader, fails in checker) + enum rule {Check, Values, Len, GetAST} + regex {Check, Example, Len} + JSON document {Check, Len, lexeme stream}; JSON document objects (12 texts, with and without the trailing-characters option) under every sequence of <=3 steps from {read 1, read 3, drain, Len, Check}: Len/Check results and the stream read from a rewound object equal those of a fresh object; repeated symbols act on the already used object; quick: all histories of length <=2 and those of length 3 that start with one of 13 disturbers; thorough: all of length <=4; pool answers: default (most recent), any older item, New(), <=1 (thorough 2) deviations; pooled buffers are overwritten with 0xEE when put back; non-trivial = histories with more than one explored pool environment",
+		Rule:      "alphabet: 50 symbols = {Check, Example, GetAST, OpenAPI, Dereference, Len, UsedUserTypes} x 6 schema projects (deep valid with types, one with every rule kind the converter handles, shallow valid, fails in scanner, fails in rule loader, fails in checker) + enum rule {Check, Values, Len, GetAST} + regex {Check, Example, Len} + JSON document {Check, Len, lexeme stream}; JSON document objects (12 texts, with and without the trailing-characters option) under every sequence of <=3 steps from {read 1, read 3, drain, Len, Check}: Len/Check results and the stream read from a rewound object equal those of a fresh object; repeated symbols act on the already used object; quick: all histories of length <=2 and those of length 3 that start with one of 13 disturbers (a load that breaks off inside a literal, a refused registration, a load that fails in the rule loader, pool users, an oversized result, a twin project, a long informer list); thorough: all of length <=4; pool answers: default (most recent), any older item, New(), <=1 (thorough 2) deviations; pooled buffers are overwritten with 0xEE when put back; non-trivial = histories with more than one explored pool environment",
 		Bounds: func(tier string) map[string]any {
 			return map[string]any{"history_length": map[string]int{"quick": 3, "thorough": 4}[tier], "pool_deviations": map[string]int{"quick": 1, "thorough": 2}[tier], "symbols": len(c10Alphabet())}
 		},
